@@ -105,7 +105,6 @@ struct Rec : mp::NLHandler<Rec, int> {
     chk(ncommon() >= 0 && (long)hh.num_vars + ncommon() <= 2147483647L, "header-vars+common-exprs-overflow");
     line(s);
   }
-  bool NeedObj(int) const { return true; }
   int resulting_obj_index(int i) const { return i; }
 
   void OnObj(int index, mp::obj::Type t, int e) { top("OnObj"); idx(index, h.num_objs, "obj-index-out-of-range"); line("O " + std::to_string(index) + " " + std::to_string((int)t) + " " + (e > 0 ? ser(e) : "-")); expr_done(); }
